@@ -68,7 +68,7 @@ def line_case(L, mask, order, periodic, rng, restrict=True, poly=None):
     return dict(kind="line", sh=[L], nvdim=1, ax=0, order=order, cell=[g.qs(h)], p1=[g.qs(x0)],
                 periodic_axes=[0] if periodic else [], restrict=restrict,
                 vals=[g.qs(v) for v in vals], valid=[bool(b) for b in mask], poly=poly, int_dtype=int_dtype,
-                mag=g.qs(mag), pre=pre, layout=rng.choice(LAYOUTS + [None] * 6), layout_set=rng.random() < 0.5)
+                mag=g.qs(mag), pre=pre, dims=rng.choice([None, None, None, ["V"], ["X"], ["t"]]), layout=rng.choice(LAYOUTS + [None] * 6), layout_set=rng.random() < 0.5)
 
 
 def nd_case(rng, tier):
@@ -84,7 +84,7 @@ def nd_case(rng, tier):
     vals = [F(rng.randint(-30, 30), rng.choice([1, 1, 2])) for _ in range(ncell * nvdim)]
     pm = rng.choice([0.0, 0.1, 0.3, 0.6])
     valid = [rng.random() >= pm for _ in range(ncell)]
-    names = rng.sample(["x", "y", "z", "a", "b", "r", "t", "q"], nd) if (rng.random() < 0.5 or nd > 3) else None
+    names = rng.sample(["x", "y", "z", "a", "b", "r", "t", "q", "V", "X", "S", "T", "n"], nd) if (rng.random() < 0.5 or nd > 3) else None
     vd = rng.sample(["p", "q", "r", "s", "u"], nvdim) if nvdim > 1 and rng.random() < 0.5 else None
     return dict(kind="nd", sh=sh, nvdim=nvdim, ax=ax, order=rng.choice([1, 2]), cell=[g.qs(x) for x in cell],
                 p1=[g.qs(x) for x in p1], periodic_axes=per, restrict=rng.random() < 0.8,
@@ -162,6 +162,17 @@ def run_case(c):
     st3, r3 = attempt(lambda: f.diff(dim, order=order, restrict2valid=c["restrict"]))
     if st3 != "ok" or not np.array_equal(r3.array, out) or not np.array_equal(f.valid, orig_valid):
         rec["oracle"].append("repeated-call-differs")
+    if c["restrict"] and not orig_valid.all() and not c.get("int_dtype"):
+        # blind across gaps, at any magnitude: whatever is stored in invalid cells (huge, infinite, NaN)
+        # must never reach a result
+        fp = build(c)
+        bad = np.array([np.inf, np.nan, -np.inf, 1e300, -1e300, 2.0 ** 600])
+        k_bad = int((~fp.valid).sum()) * c["nvdim"]
+        with np.errstate(all="ignore"):
+            fp.array[~fp.valid] = np.resize(bad, k_bad).reshape(-1, c["nvdim"])
+            stp, rp = attempt(lambda: fp.diff(dim, order=order, restrict2valid=True))
+        if stp != "ok" or not np.array_equal(rp.array, out):
+            rec["oracle"].append("invalid-cell-value-read")
     h = F(c["cell"][ax]) * (2 if c.get("pre") else 1)
     vals = np.array([F(x) for x in c["vals"]], dtype=object).reshape(*sh, c["nvdim"])
     valid = np.array(c["valid"], dtype=bool).reshape(*sh)
